@@ -130,13 +130,24 @@ def implied(facts, required, names):
 # facts from the CFG
 
 def facts_at(fa, node):
-    """[(condition term, truth)] for every branch edge dominating `node`"""
+    """[(condition term, truth, test node)] for every branch edge dominating `node`; `not c` is unwrapped
+    (truth flipped) and a true conjunction / false disjunction is split into its operands"""
     out = []
     for test, truth in fa.cfg.facts_at(node):
         if test.kind != "test":
             continue
-        out.append((fa.term(test.ast, test), truth, test))
+        _split_fact(fa.term(test.ast, test), truth, test, out)
     return out
+
+
+def _split_fact(t, truth, test, out):
+    while t.k == "un" and t.a[0] == "not":
+        t, truth = t.a[1], not truth
+    if t.k == "bool" and ((t.a[0] == "and" and truth) or (t.a[0] == "or" and not truth)):
+        for x in t.a[1]:
+            _split_fact(x, truth, test, out)
+        return
+    out.append((t, truth, test))
 
 
 def refusals(fa):
@@ -153,45 +164,88 @@ def refusals(fa):
 
 def check_guard(ctx, rule, f, sink_nodes, forms, required, names, what, engine="E1", fa=None, describe=None,
                 start=None, constraints=()):
-    """must-guard: at every sink node the dominating branch facts imply `required`.
-    start: only paths that pass CFG node `start` are considered (facts between start and the sink).
-    constraints: formulas that always hold (e.g. trichotomy of order atoms)"""
+    """must-guard, path-sensitive: for every truth assignment A of the rule's atoms (consistent with
+    `constraints`) under which `required(A)` is false, the sink must not be reachable from `start` (default: entry)
+    when every branch test is followed only along the edges feasible under A.  Tests the rule cannot
+    interpret are followed along both edges; if such a test is a *refusal* relevant to the rule (it may be the
+    guard written differently), a sink reachable only through it is `unknown`, not `violated`."""
     fa = fa or ctx.fa(f)
     if not sink_nodes:
         ctx.unknown(rule, f, what, "guarded construct not found (idiom not recognised)", engine=engine)
         return
+    cfg = fa.cfg
+    ref_tests = {t.id for t, _ in refusals(fa)}
+    tests = {}
+    opaque_refusals = set()
+    for n in cfg.nodes:
+        if n.kind == "test" and cfg.is_reachable(n):
+            fm = forms.of(fa.term(n.ast, n))
+            tests[n.id] = fm
+            if n.id in ref_tests and any(a.startswith("?") for a in atoms_of(fm)):
+                opaque_refusals.add(n.id)
+    named = sorted(set(names) | {a for fm in tests.values() for a in atoms_of(fm) if not a.startswith("?")} |
+                   {a for c in constraints for a in atoms_of(c)})
+    if len(named) > 14:
+        for s in sink_nodes:
+            ctx.unknown(rule, f, what, "too many atoms", node=s.ast, engine=engine)
+        return
+    src = start or cfg.entry
     for s in sink_nodes:
-        if start is not None:
-            fb = fa.cfg.facts_between(start, s)
-            if fb is None:
-                continue        # sink not reachable from start
-            raw = [(fa.term(t.ast, t), truth, t) for t, truth in fb]
-        else:
-            raw = facts_at(fa, s)
-        ref_tests = {t.id for t, _ in refusals(fa)}
-        facts = []
-        for (t, truth, test) in raw:
-            fm = forms.of(t)
-            if any(a.startswith("?") for a in atoms_of(fm)) and test.id not in ref_tests:
-                # an ordinary branch condition the rule does not interpret: no constraint on the rule's atoms.
-                # (an uninterpreted *refusal* is kept: it may be the guard written differently -> unknown)
-                named = _strip_opaque(fm)
-                if named is not None:
-                    facts.append((named, truth))
+        if not cfg.can_reach(src, [s]):
+            continue
+        verdict, wit = True, None
+        for vals in itertools.product([False, True], repeat=len(named)):
+            A = _Partial(zip(named, vals))
+            if any(ev(c, A) is False for c in constraints):
                 continue
-            facts.append((fm, truth))
-        facts += [(c, True) for c in constraints]
-        verdict, wit = implied(facts, required, names)
+            if required(A):
+                continue
+            r1 = _feasible_reach(cfg, src, s, tests, A, avoid=())
+            if not r1:
+                continue
+            r2 = _feasible_reach(cfg, src, s, tests, A, avoid=opaque_refusals)
+            if r2:
+                verdict, wit = False, dict(A)
+                break
+            verdict, wit = None, dict(A)
         node = s.ast if s.ast is not None else None
         if verdict is True:
             ctx.holds(rule, f, what, node=node, engine=engine)
         elif verdict is False:
-            w = ", ".join("%s=%s" % kv for kv in sorted(wit.items())) if wit else ""
+            w = ", ".join("%s=%s" % kv for kv in sorted(wit.items()) if kv[0] in names) if wit else ""
             ctx.violated(rule, f, what, "the construct at line %s is reachable with %s%s" % (
                 s.lineno, w or "the refusal condition false", (" (" + describe + ")") if describe else ""),
                 node=node, engine=engine)
         else:
-            ctx.unknown(rule, f, what, "depends on a condition the rule does not recognise", node=node, engine=engine)
+            ctx.unknown(rule, f, what, "depends on a refusal the rule does not recognise", node=node, engine=engine)
+
+
+class _Partial(dict):
+    def __missing__(self, k):
+        return None
+
+
+def _feasible_reach(cfg, src, sink, tests, A, avoid):
+    seen = set()
+    stack = [src]
+    while stack:
+        n = stack.pop()
+        if n.id in seen:
+            continue
+        seen.add(n.id)
+        if n is sink:
+            return True
+        if n.id in avoid and n is not src:
+            continue
+        if n.kind == "test" and n.id in tests:
+            v = ev(tests[n.id], A)
+            for e in n.succ:
+                if e.kind == "edge" and v is not None and e.info[1] != v:
+                    continue
+                stack.append(e)
+            continue
+        stack.extend(n.succ)
+    return False
 
 
 # ---------------------------------------------------------------------------
